@@ -571,6 +571,19 @@ func c19run(c *fw.Ctx, idx int) {
 						hist = append(hist, c19op{Op: "AddLoaders(nested)", Loader: active})
 						inner.AddLoaders(ls[active])
 						innerList = append(innerList, active)
+					} else if r.Intn(4) == 0 {
+						// a loader that is on the stack already is added once more, at the end: the stack keeps its order
+						dup := outerList[0]
+						if dup < 0 {
+							dup = outerList[len(outerList)-1]
+						}
+						if dup >= 0 {
+							hist = append(hist, c19op{Op: "AddLoaders(loader already on the stack)", Loader: dup})
+							ml.AddLoaders(ls[dup])
+							outerList = append(outerList, dup)
+							c.Count("addloaders_of_a_member", 1)
+						}
+						active--
 					} else if active+1 < k && r.Intn(2) == 0 {
 						// several loaders in one call (possibly more than the stack holds so far): appended in the order given
 						hist = append(hist, c19op{Op: fmt.Sprintf("AddLoaders(%d loaders at once)", k-active), Loader: active})
